@@ -27,6 +27,7 @@ func main() {
 	tier := fs.String("tier", "quick", "quick|thorough")
 	keep := fs.Bool("keep", false, "keep SMT files")
 	verbose := fs.Bool("v", false, "verbose")
+	conform := fs.Bool("conform", false, "verify: conformance replay of the proved postconditions on one real execution")
 	witness := fs.Bool("witness", false, "verify: search and replay a counterexample for every open obligation (written under replays/_verify)")
 	timeout := fs.Int("timeout", 0, "per-query timeout seconds")
 	schema := fs.String("schema", "", "use the schema contract of this property")
@@ -50,6 +51,7 @@ func main() {
 	}
 	o := runOpts{Tier: *tier, Timeout: 10 * time.Second, Par: (runtime.NumCPU() + 2) / 3, Workdir: work, Verbose: *verbose}
 	if *tier == "thorough" {
+		relaxBudget = 12
 		o.Timeout = 60 * time.Second
 		o.All = true
 		o.Par = runtime.NumCPU() / 3
@@ -87,6 +89,13 @@ func main() {
 		}
 		res := e.verifyOne(*fn, con, o)
 		printResult(res, *verbose)
+		if *conform && res.Err == "" {
+			cr := e.conformFunction(res, o)
+			fmt.Printf("  conformance: ran=%v checked=%d mismatches=%d %s\n", cr.Ran, cr.Checked, len(cr.Mismatch), cr.Note)
+			for _, m := range cr.Mismatch {
+				fmt.Println("   ", m)
+			}
+		}
 		if *witness && res.Err == "" {
 			for _, g := range res.Goals {
 				if g.Status == "proved" || g.ExpectSat {
